@@ -163,6 +163,14 @@ Theorem C37_pred : forall res1 k nc1 nc2 data prog,
 Proof. exact full_pred. Qed.
 Print Assumptions C37_pred.
 
+(* Tie T for the batch sizes of both loops (expressions translated from the Go source into
+   Gen/C37.v on every run). *)
+Theorem C37_batch_sizes_source : forall len nc,
+  Z.to_nat (raw_batch_size (Z.of_nat len) (Z.of_nat nc)) = (len / nc + 1)%nat /\
+  Z.to_nat (aggr_batch_size (Z.of_nat len) (Z.of_nat nc)) = (len / nc)%nat.
+Proof. intros len nc. split; [apply raw_batch_size_model|apply aggr_batch_size_model]. Qed.
+Print Assumptions C37_batch_sizes_source.
+
 (* Non-vacuity: a counter with a reset inside the first chunk and one exactly between
    the two chunks (batch size 3), 10 ms resolution; second level at 30 ms in two parts
    and in one part. *)
